@@ -294,7 +294,12 @@ func (fr *Frame) evalClauseWith(cl *Clause, lookup func(cp ClauseParam, old bool
 	for _, cp := range cl.Params {
 		args = append(args, lookup(cp, false))
 	}
+	savedPre := fr.preState
+	if oldSt != nil {
+		fr.preState = oldSt
+	}
 	res, _ := fr.evalPureOld(fn, args, st, oldVals, oldFrame)
+	fr.preState = savedPre
 	return vc.Define("cl."+cl.Label, res.T)
 }
 
@@ -951,6 +956,20 @@ func (fr *Frame) intrinsic(fn *ssa.Function, args []Val, st *State, pos token.Po
 		return TV(vc.ghost(st, "$trace", STrace)), true
 	case "traceCall":
 		return TV(App(STrace, "tsnoc", args[0].T, args[1].T, asPtr(args[2]), asPtr(args[3]), asPtr(args[4]))), true
+	case "ghostIntAtEntry":
+		nm, ok := constString(site.Common().Args[0])
+		if !ok {
+			fail("%s: ghost field name must be a constant string", vc.posOf(pos))
+		}
+		src := fr.preState
+		if src == nil {
+			src = vc.entry
+		}
+		if src == nil {
+			src = st
+		}
+		g := vc.ghost(src, "$g."+nm, Sort("(Array Ptr Int)"))
+		return TV(Sel(g, asPtr(args[1]), SInt)), true
 	case "ghostInt", "ghostIface":
 		nm, ok := constString(site.Common().Args[0])
 		if !ok {
@@ -1148,6 +1167,12 @@ func (fr *Frame) callContract(fn *ssa.Function, ct *Contract, args []Val, st *St
 	mk := func(results []Val) func(cp ClauseParam, old bool) Val {
 		return func(cp ClauseParam, old bool) Val {
 			switch cp.Kind {
+			case "ghostkey":
+				for i, p := range fn.Params {
+					if p.Name() == cp.Name {
+						return args[i]
+					}
+				}
 			case "result":
 				if results == nil {
 					fail("precondition of %s mentions result", rel)
@@ -1200,6 +1225,13 @@ func (fr *Frame) callByContract(rel, short string, ct *Contract, rs *types.Tuple
 	// havoc what the callee may modify
 	items := fr.modItems(ct, mk(nil), pre)
 	fr.havocItems(st, items, pos)
+	// ghost counters advanced by the call itself
+	for _, gi := range ct.GhostInc {
+		key := mk(nil)(ClauseParam{Name: gi[1], Kind: "ghostkey"}, false)
+		gname := "$g." + gi[0]
+		g := vc.ghost(st, gname, Sort("(Array Ptr Int)"))
+		vc.setGhost(st, gname, Sto(g, asPtr(key), Add(Sel(g, asPtr(key), SInt), IntLit(1))))
+	}
 	// objects the callee allocates
 	a := vc.allocTerm(st)
 	na := vc.Fresh("alloc", SInt)
